@@ -221,6 +221,8 @@ func genSchema(repo string) (string, error) {
 						}
 					}
 				}
+			case *ast.CompositeLit:
+				mapKeyLits(x, lits)
 			}
 			return true
 		})
@@ -256,6 +258,75 @@ func genSchema(repo string) (string, error) {
 			return true
 		})
 	}
+	isCarrier := func(fd *ast.FuncDecl) bool {
+		if fd.Body == nil || !isReader(fd) || !takesDecoder(fd) || fd.Name.Name == "MarshalXML" {
+			return false
+		}
+		// a function that is handed a value of the document model by pointer fills that value: its names are that type's
+		for _, prm := range fd.Type.Params.List {
+			if se, ok := prm.Type.(*ast.StarExpr); ok {
+				if id, ok := se.X.(*ast.Ident); ok {
+					if _, isModel := types[id.Name]; isModel {
+						return false
+					}
+				}
+			}
+		}
+		if fd.Type.Results == nil {
+			return true
+		}
+		for _, res := range fd.Type.Results.List {
+			t := res.Type
+			if se, ok := t.(*ast.StarExpr); ok {
+				t = se.X
+			}
+			switch x := t.(type) {
+			case *ast.Ident:
+				if _, isModel := types[x.Name]; isModel {
+					return false
+				}
+			case *ast.InterfaceType, *ast.ArrayType, *ast.MapType:
+				return false
+			}
+		}
+		return true
+	}
+	var carrierLits func(fd *ast.FuncDecl, seen map[string]bool, into map[string]bool)
+	carrierLits = func(fd *ast.FuncDecl, seen map[string]bool, into map[string]bool) {
+		ast.Inspect(fd.Body, func(n ast.Node) bool {
+			ce, ok := n.(*ast.CallExpr)
+			if !ok {
+				return true
+			}
+			name := ""
+			switch f := ce.Fun.(type) {
+			case *ast.Ident:
+				name = f.Name
+			case *ast.SelectorExpr:
+				name = f.Sel.Name
+			}
+			if name == "" || seen[name] || name == "skipElement" {
+				return true
+			}
+			var g *ast.FuncDecl
+			cnt := 0
+			for _, c := range p.allFuncs() {
+				if c.Name.Name == name {
+					g = c
+					cnt++
+				}
+			}
+			if cnt == 1 && isCarrier(g) {
+				seen[name] = true
+				for l := range funcLits(g) {
+					into[l] = true
+				}
+				helperLits(g, seen, into)
+				carrierLits(g, seen, into)
+			}
+			return true
+		})
+	}
 	known := map[string]map[string]bool{}
 	anyCases := map[string]bool{}
 	nReaders := 0
@@ -265,6 +336,7 @@ func genSchema(repo string) (string, error) {
 		}
 		nReaders++
 		lits := map[string]bool{}
+		typeParams := typeParamSets(p, fd)
 		helperLits(fd, map[string]bool{fd.Name.Name: true}, lits)
 		built := map[string]bool{}
 		ast.Inspect(fd.Body, func(n ast.Node) bool {
@@ -293,9 +365,18 @@ func genSchema(repo string) (string, error) {
 				if id, ok := x.Type.(*ast.Ident); ok {
 					built[id.Name] = true
 				}
+				mapKeyLits(x, lits)
+			case *ast.Ident:
+				// a use of a type parameter stands for every type of its constraint
+				for _, tn := range typeParams[x.Name] {
+					built[tn] = true
+				}
 			}
 			return true
 		})
+		// a reader function of the package that hands back no value of the document model (it returns plain values or a
+		// record of its own, or fills what it is handed): what it reads ends up in the value its caller builds
+		carrierLits(fd, map[string]bool{fd.Name.Name: true}, lits)
 		// a reader function whose result is interface{} decides which element names may stand in a
 		// heterogeneous list (the document body)
 		if fd.Type.Results != nil {
@@ -420,4 +501,80 @@ func exprString(e ast.Expr) string {
 		return "[]" + exprString(t.Elt)
 	}
 	return "?"
+}
+
+// mapKeyLits: the string keys of a map literal (a table from element or attribute names to what is done with them)
+func mapKeyLits(cl *ast.CompositeLit, into map[string]bool) {
+	if _, ok := cl.Type.(*ast.MapType); !ok {
+		return
+	}
+	for _, el := range cl.Elts {
+		if kv, ok := el.(*ast.KeyValueExpr); ok {
+			if blv, ok := strLit(kv.Key); ok {
+				into[blv] = true
+			}
+		}
+	}
+}
+
+// typeParamSets: for a generic function, the named types each type parameter may stand for (the union its constraint
+// lists, directly or through an interface of the package)
+func typeParamSets(p *pkgSrc, fd *ast.FuncDecl) map[string][]string {
+	out := map[string][]string{}
+	if fd.Type.TypeParams == nil {
+		return out
+	}
+	var union func(e ast.Expr, depth int) []string
+	union = func(e ast.Expr, depth int) []string {
+		if depth > 4 {
+			return nil
+		}
+		switch x := e.(type) {
+		case *ast.BinaryExpr:
+			if x.Op == token.OR {
+				return append(union(x.X, depth+1), union(x.Y, depth+1)...)
+			}
+		case *ast.UnaryExpr:
+			if x.Op == token.TILDE {
+				return union(x.X, depth+1)
+			}
+		case *ast.ParenExpr:
+			return union(x.X, depth+1)
+		case *ast.InterfaceType:
+			var r []string
+			for _, m := range x.Methods.List {
+				if len(m.Names) == 0 {
+					r = append(r, union(m.Type, depth+1)...)
+				}
+			}
+			return r
+		case *ast.Ident:
+			for _, fn := range p.sortedFiles() {
+				for _, d := range p.files[fn].Decls {
+					gd, ok := d.(*ast.GenDecl)
+					if !ok || gd.Tok != token.TYPE {
+						continue
+					}
+					for _, sp := range gd.Specs {
+						ts := sp.(*ast.TypeSpec)
+						if ts.Name.Name == x.Name {
+							if it, ok := ts.Type.(*ast.InterfaceType); ok {
+								return union(it, depth+1)
+							}
+							return []string{x.Name}
+						}
+					}
+				}
+			}
+			return []string{x.Name}
+		}
+		return nil
+	}
+	for _, f := range fd.Type.TypeParams.List {
+		set := union(f.Type, 0)
+		for _, n := range f.Names {
+			out[n.Name] = set
+		}
+	}
+	return out
 }
